@@ -31,6 +31,15 @@
       `need_copy = 1` → `pthread_mutex_lock` → `reb_simulation_save_to_stream(r,…)`
       → `need_copy = 0` → `pthread_mutex_unlock` → `fwrite` of the private buffer.
 
+  The server may be started at any time (`reb_simulation_start_server`, server.c:691-734, event
+  `xStart`): `r->server_data` goes from NULL to non-NULL.  The integrator reads `r->server_data`
+  TWICE per iteration, at rebound.c:842 (wait + lock) and again at 868 (unlock): `iSeeSrv b` and
+  `iUnlock`/`iSkipUnlock`.  An iteration that read NULL at 842 runs its step without the mutex
+  (`ilock = false`); if the server comes up inside such an iteration (`racy`, a history flag that
+  influences no transition) the 868 read sees it and the integrator unlocks a mutex it does not
+  own (`ub`, undefined behaviour of pthread_mutex_unlock, modelled as an explicit flag; glibc
+  releases the mutex).
+
   Mathlib-free; `step` is executable and is what `drv_c19` runs on the traces logged by
   the `LD_PRELOAD` shim from the real library.
 -/
@@ -66,6 +75,7 @@ inductive IPc where
   | pro        -- prologue rebound.c:795-818 (unlocked writes of dt, dt_last_done, status)
   | chk        -- inside `reb_check_exit` (822), nothing written yet
   | chkAdj     -- inside `reb_check_exit` after it called `reb_simulation_synchronize` (690-705); `r->dt` write pending
+  | preLock    -- 842: about to read `r->server_data`
   | waitNC     -- 845: `while (need_copy==1) usleep(10)`
   | wantLock   -- 851: about to call / blocked in `pthread_mutex_lock`
   | locked     -- 853-856: holds the mutex, step not yet started
@@ -96,9 +106,13 @@ structure State where
   sim      : Sim
   snap     : Option Sim     -- the simulation state read when the current/last serialisation began
   served   : Nat            -- completed serialisations
+  srvUp    : Bool           -- `r->server_data != NULL`
+  ilock    : Bool           -- the current iteration of the integrator took the mutex (read non-NULL at 842)
+  racy     : Bool           -- history: the server was started inside an iteration that had not taken the mutex
+  ub       : Bool           -- the integrator has called pthread_mutex_unlock on a mutex it did not own
   deriving DecidableEq, Repr, Inhabited
 
-def init : State := ⟨.idle, .accepting, none, false, boundary 0 0, none, 0⟩
+def init : State := ⟨.idle, .accepting, none, false, boundary 0 0, none, 0, false, false, false, false⟩
 
 /-! ### events -/
 
@@ -108,14 +122,18 @@ inductive Ev where
   | iChkBegin              -- `reb_check_exit` entered
   | iChkSync               -- `reb_check_exit` calls `reb_simulation_synchronize` (last-step path)
   | iChkEnd (cont : Bool)  -- `reb_check_exit` returns; `cont` = (return value < 0) = loop body runs
+  | iSeeSrv (up : Bool)    -- 842: read `r->server_data` (non-NULL = `up`)                (silent)
   | iSpin                  -- read `need_copy == 1`, `usleep(10)`
   | iSeeNC0                -- read `need_copy == 0`, leave the wait loop           (silent)
   | iLock                  -- `pthread_mutex_lock` returns
   | iStepBegin             -- `reb_simulation_step` entered
   | iStepEnd               -- `reb_simulation_step` returns
-  | iUnlock                -- `pthread_mutex_unlock`
+  | iUnlock                -- 868: read `r->server_data` non-NULL, `pthread_mutex_unlock`
+  | iSkipUnlock            -- 868: read `r->server_data` NULL, no unlock                   (silent)
   | iEpiSync               -- epilogue calls `reb_simulation_synchronize`
   | iLeave                 -- `reb_simulation_integrate` returns
+  -- another thread
+  | xStart                 -- `reb_simulation_start_server`: `r->server_data` becomes non-NULL
   -- server
   | sReq                   -- a `/simulation` request has been parsed                (silent)
   | sSetNC                 -- `need_copy = 1`                                       (silent)
@@ -128,13 +146,13 @@ inductive Ev where
   deriving DecidableEq, Repr, Inhabited
 
 def Ev.isI : Ev → Bool
-  | .iEnter | .iChkBegin | .iChkSync | .iChkEnd _ | .iSpin | .iSeeNC0 | .iLock
-  | .iStepBegin | .iStepEnd | .iUnlock | .iEpiSync | .iLeave => true
+  | .iEnter | .iChkBegin | .iChkSync | .iChkEnd _ | .iSeeSrv _ | .iSpin | .iSeeNC0 | .iLock
+  | .iStepBegin | .iStepEnd | .iUnlock | .iSkipUnlock | .iEpiSync | .iLeave => true
   | _ => false
 
 /-- events the shim cannot see (plain loads/stores of `need_copy`, socket I/O) -/
 def Ev.silent : Ev → Bool
-  | .iSeeNC0 | .sReq | .sSetNC | .sClrNC | .sSent => true
+  | .iSeeNC0 | .iSeeSrv _ | .iSkipUnlock | .sReq | .sSetNC | .sClrNC | .sSent => true
   | _ => false
 
 /-- an unlocked write of `r` begins (the three places of the code that do it) -/
@@ -158,17 +176,22 @@ def step (s : State) : Ev → Option State
   | .iChkSync =>
     if s.ipc = .chk then some { s with ipc := .chkAdj, sim := setPhase s.sim .inAdjust } else none
   | .iChkEnd cont =>
-    if s.ipc = .chk then some { s with ipc := if cont then .waitNC else .epi }
+    if s.ipc = .chk then some { s with ipc := if cont then .preLock else .epi }
     else if s.ipc = .chkAdj then
-      some { s with ipc := if cont then .waitNC else .epi,
+      some { s with ipc := if cont then .preLock else .epi,
                     sim := { s.sim with phase := .atBoundary, adj := s.sim.adj + 1 } }
+    else none
+  | .iSeeSrv up =>
+    -- rebound.c:842 `if (r->server_data)`: NULL → straight to the step, without the mutex
+    if s.ipc = .preLock ∧ s.srvUp = up then
+      some (if up then { s with ipc := .waitNC } else { s with ipc := .locked, ilock := false })
     else none
   | .iSpin =>
     if s.ipc = .waitNC ∧ s.needCopy = true then some s else none
   | .iSeeNC0 =>
     if s.ipc = .waitNC ∧ s.needCopy = false then some { s with ipc := .wantLock } else none
   | .iLock =>
-    if s.ipc = .wantLock ∧ s.owner = none then some { s with ipc := .locked, owner := some .I } else none
+    if s.ipc = .wantLock ∧ s.owner = none then some { s with ipc := .locked, owner := some .I, ilock := true } else none
   | .iStepBegin =>
     if s.ipc = .locked then some { s with ipc := .stepping, sim := setPhase s.sim .inStep } else none
   | .iStepEnd =>
@@ -176,17 +199,32 @@ def step (s : State) : Ev → Option State
       some { s with ipc := .stepped, sim := { s.sim with phase := .atBoundary, steps := s.sim.steps + 1 } }
     else none
   | .iUnlock =>
-    -- pthread_mutex_unlock of a mutex one does not own is undefined: not enabled
-    if s.ipc = .stepped ∧ s.owner = some .I then some { s with ipc := .unlocked, owner := none } else none
+    -- rebound.c:868 `if (r->server_data)` read again: non-NULL → pthread_mutex_unlock.  If this iteration never
+    -- locked, that is an unlock of a mutex the thread does not own: undefined behaviour, recorded in `ub`
+    -- (glibc's default mutex is simply released, whoever held it)
+    if s.ipc = .stepped ∧ s.srvUp = true then
+      if s.ilock = true ∧ s.owner = some .I then some { s with ipc := .unlocked, owner := none, ilock := false }
+      else if s.ilock = false then some { s with ipc := .unlocked, owner := none, ub := true }
+      else if s.ub = true then some { s with ipc := .unlocked, owner := none, ilock := false }   -- after UB: no guarantee left
+      else none
+    else none
+  | .iSkipUnlock =>
+    if s.ipc = .stepped ∧ s.srvUp = false then some { s with ipc := .unlocked, ilock := false } else none
   | .iEpiSync =>
     if s.ipc = .epi then some { s with ipc := .epiAdj, sim := setPhase s.sim .inAdjust } else none
   | .iLeave =>
     if s.ipc = .epiAdj then
       some { s with ipc := .idle, sim := { s.sim with phase := .atBoundary, adj := s.sim.adj + 1 } }
     else none
+  -- ------------------------------------------------------------------ server start (any thread, any time, once)
+  | .xStart =>
+    if s.srvUp = false then
+      some { s with srvUp := true,
+                    racy := s.racy || (decide (s.ipc = .locked ∨ s.ipc = .stepping ∨ s.ipc = .stepped) && !s.ilock) }
+    else none
   -- ------------------------------------------------------------------ server
   | .sReq =>
-    if s.spc = .accepting then some { s with spc := .gotReq } else none
+    if s.spc = .accepting ∧ s.srvUp = true then some { s with spc := .gotReq } else none
   | .sSetNC =>
     if s.spc = .gotReq then some { s with spc := .ncSet, needCopy := true } else none
   | .sLock =>
@@ -196,9 +234,16 @@ def step (s : State) : Ev → Option State
   | .sSerEnd =>
     if s.spc = .serialising then some { s with spc := .serialised, served := s.served + 1 } else none
   | .sClrNC =>
-    if s.spc = .serialised then some { s with spc := .ncClr, needCopy := false } else none
+    -- from `serialised`: the /simulation request.  From `holding`: a /keyboard/<key> request (server.c:331-341: need_copy=1,
+    -- lock, key_callback (none), need_copy=0, unlock) — same protocol, nothing serialised; it then writes r->status
+    -- outside the mutex (353-357, e.g. the space key resuming a paused simulation), which is not simulation state here
+    if s.spc = .serialised then some { s with spc := .ncClr, needCopy := false }
+    else if s.spc = .holding then some { s with spc := .ncClr, needCopy := false }
+    else none
   | .sUnlock =>
-    if s.spc = .ncClr ∧ s.owner = some .S then some { s with spc := .sending, owner := none } else none
+    if s.spc = .ncClr ∧ s.owner = some .S then some { s with spc := .sending, owner := none }
+    else if s.spc = .ncClr ∧ s.ub = true then some { s with spc := .sending, owner := none }     -- after UB: no guarantee left
+    else none
   | .sSent =>
     if s.spc = .sending then some { s with spc := .accepting } else none
 
@@ -221,8 +266,10 @@ structure Solo where
 
 def soloInit : Solo := ⟨.idle, boundary 0 0⟩
 
-/-- rebound.c:842 `if (r->server_data)` is false: no wait loop, no mutex; the events
-`iSeeNC0`/`iLock`/`iUnlock` are kept as pure control-flow steps so that traces compare -/
+/-- the integrator's control flow and its effect on the simulation with every reference to the
+server (flag, mutex, need_copy) erased: `iSeeSrv`/`iSeeNC0`/`iLock`/`iUnlock`/`iSkipUnlock` are kept
+as pure control-flow steps so that traces compare; a run with `r->server_data == NULL` throughout
+is the one that only uses `iSeeSrv false` and `iSkipUnlock` -/
 def soloStep (s : Solo) : Ev → Option Solo
   | .iEnter => if s.ipc = .idle then some ⟨.pro, setPhase s.sim .inAdjust⟩ else none
   | .iChkBegin =>
@@ -230,10 +277,11 @@ def soloStep (s : Solo) : Ev → Option Solo
     else if s.ipc = .unlocked then some ⟨.chk, s.sim⟩ else none
   | .iChkSync => if s.ipc = .chk then some ⟨.chkAdj, setPhase s.sim .inAdjust⟩ else none
   | .iChkEnd cont =>
-    if s.ipc = .chk then some ⟨if cont then .waitNC else .epi, s.sim⟩
+    if s.ipc = .chk then some ⟨if cont then .preLock else .epi, s.sim⟩
     else if s.ipc = .chkAdj then
-      some ⟨if cont then .waitNC else .epi, { s.sim with phase := .atBoundary, adj := s.sim.adj + 1 }⟩
+      some ⟨if cont then .preLock else .epi, { s.sim with phase := .atBoundary, adj := s.sim.adj + 1 }⟩
     else none
+  | .iSeeSrv up => if s.ipc = .preLock then some ⟨if up then .waitNC else .locked, s.sim⟩ else none
   | .iSeeNC0 => if s.ipc = .waitNC then some ⟨.wantLock, s.sim⟩ else none
   | .iLock => if s.ipc = .wantLock then some ⟨.locked, s.sim⟩ else none
   | .iStepBegin => if s.ipc = .locked then some ⟨.stepping, setPhase s.sim .inStep⟩ else none
@@ -241,6 +289,7 @@ def soloStep (s : Solo) : Ev → Option Solo
     if s.ipc = .stepping then
       some ⟨.stepped, { s.sim with phase := .atBoundary, steps := s.sim.steps + 1 }⟩ else none
   | .iUnlock => if s.ipc = .stepped then some ⟨.unlocked, s.sim⟩ else none
+  | .iSkipUnlock => if s.ipc = .stepped then some ⟨.unlocked, s.sim⟩ else none
   | .iEpiSync => if s.ipc = .epi then some ⟨.epiAdj, setPhase s.sim .inAdjust⟩ else none
   | .iLeave =>
     if s.ipc = .epiAdj then some ⟨.idle, { s.sim with phase := .atBoundary, adj := s.sim.adj + 1 }⟩ else none
@@ -265,7 +314,7 @@ structure Obs where
   nc : Option Bool
   deriving Repr, Inhabited
 
-def silentEvs : List Ev := [.iSeeNC0, .sReq, .sSetNC, .sClrNC, .sSent]
+def silentEvs : List Ev := [.iSeeNC0, .iSeeSrv true, .iSeeSrv false, .iSkipUnlock, .sReq, .sSetNC, .sClrNC, .sSent]
 
 def dedup (l : List State) : List State :=
   l.foldl (fun acc s => if acc.contains s then acc else acc ++ [s]) []
